@@ -2350,22 +2350,25 @@ theorem labelS_last {r0 : SRow} {e0 : EagerS} (h : RefS r0 e0) (hw : WFS e0) (k 
   simp only [eagerStageS] at he
   simp only [Except.ok.injEq, Option.some.injEq] at he
   subst he
-  have href := refS_label h hw k t (some (k, t))
-  have hlv : ∃ v, dget (labelDict e0.d k) k = some v := by
+  -- the key LabelRows really uses (an int label of a header-mapped table is translated to its header)
+  have hk : labelKey r0.invOf k = labelKey e0.inv k := by rw [h.inv]
+  generalize labelKey e0.inv k = k' at hk
+  have href := refS_label h hw k' t (some (k', t))
+  have hlv : ∃ v, dget (labelDict e0.d k') k' = some v := by
     rw [dget_labelDict]
-    cases dget e0.d k with
+    cases dget e0.d k' with
     | some v => exact ⟨v, rfl⟩
     | none => exact ⟨.int 0, by simp⟩
   obtain ⟨v, hv⟩ := hlv
-  have hdrop := refS_drop h hw [k] none
-  refine ⟨.label r0 k t, .drop r0 [k], _, v, rfl, ?_, rfl, rfl, ?_, ?_, ?_, rfl, rfl⟩
+  have hdrop := refS_drop h hw [k'] none
+  refine ⟨.label r0 k' t, .drop r0 [k'], _, v, by simp only [applyS, hk], ?_, rfl, rfl, ?_, ?_, ?_, rfl, rfl⟩
   · exact href
-  · have := feats_filter_eq e0.d k
+  · have := feats_filter_eq e0.d k'
     simp only [labelDict] at this
     rw [this]
     exact hdrop
   · simp only [SRow.labelVal, SRow.labelOf]
-    have := href.get k
+    have := href.get k'
     simp only [labelDict] at this hv
     rw [this, hv]; rfl
   · simp only [EagerS.labelVal]
